@@ -12,7 +12,7 @@ use crate::rng::Rng;
 pub const RULE: &str = "case = one random operation history (new / with_capacity / from_rows / resize up, down, to 0 / reserve / fill / row write / cell write via MatrixCoordinates / clone + independence / == against a rebuilt matrix / iter, rev, iter_mut, IntoIterator) on DenseMatrix<T, C> for T in {u8,u32,f32,i64} x C in {1,5,7,16,21,32,43}, checked after EVERY operation against a Vec<Vec<T>> model: rows(), columns(), every cell, surviving rows unchanged, new rows default, iteration order and length in both directions, every row pointer 32-byte aligned, stride >= C and stride*size_of::<T>() a multiple of 32. Non-trivial = history with at least one resize and one write; distinct = distinct (type, C, op sequence).";
 
 pub const REQUIRED: &[&str] = &[
-    "op.new", "op.with_capacity", "op.with_capacity.below_rows", "check.self_equality", "op.from_rows", "op.resize_up", "op.resize_down", "op.resize_zero", "op.reserve",
+    "op.new", "op.with_capacity", "op.with_capacity.below_rows", "check.self_equality", "op.from_rows", "op.from_rows.matrix_iterator", "type.user_defined", "op.resize_up", "op.resize_down", "op.resize_zero", "op.reserve",
     "op.fill", "op.fill.byte_uniform_value", "op.row_write", "op.cell_write", "op.clone", "op.clone_from", "op.eq", "op.iter", "op.iter_rev", "op.iter_mut",
     "op.into_iter", "type.u8", "type.u32", "type.f32", "type.i64", "cols.1", "cols.5", "cols.7", "cols.16", "cols.21",
     "cols.32", "cols.43", "class.padded_stride",
@@ -69,6 +69,26 @@ impl Elem for f32 {
     }
     fn name() -> &'static str {
         "f32"
+    }
+}
+/// a user-defined cell type (MatrixElement is a blanket over Default + Copy) whose default value
+/// is not the all-zero bit pattern
+#[derive(Clone, Copy, Debug, PartialEq)]
+pub struct Tagged(pub u16, pub u8);
+impl Default for Tagged {
+    fn default() -> Self {
+        Tagged(0x0101, 7)
+    }
+}
+impl Elem for Tagged {
+    fn byte_uniform(i: usize) -> Self {
+        [Tagged(0, 0), Tagged(0xffff, 0xff), Tagged(0x0101, 1), Tagged(0x5a5a, 0x5a)][i % 4]
+    }
+    fn from_u(x: u64) -> Self {
+        Tagged((x % 65_521) as u16, (x % 251) as u8)
+    }
+    fn name() -> &'static str {
+        "user_defined"
     }
 }
 impl Elem for i64 {
@@ -356,6 +376,29 @@ pub fn history<T: Elem, C: ArrayLength + PartialEq>(case: u64, rng: &mut Rng, re
             m = DenseMatrix::from_rows(model.iter().map(|r| r.as_slice()).collect::<Vec<_>>());
             ops.push(format!("from_rows({} rows)", r0));
             rep.cover("op.from_rows");
+            // ... and from the rows of another matrix, through the crate's own iterators
+            match rng.below(4) {
+                0 => {
+                    let m2: DenseMatrix<T, C> = DenseMatrix::from_rows(&m);
+                    m = m2;
+                    ops.push("from_rows(&matrix)".to_string());
+                    rep.cover("op.from_rows.matrix_iterator");
+                }
+                1 => {
+                    let m2: DenseMatrix<T, C> = DenseMatrix::from_rows(m.iter().rev());
+                    m = m2;
+                    model.reverse();
+                    ops.push("from_rows(matrix.iter().rev())".to_string());
+                    rep.cover("op.from_rows.matrix_iterator");
+                }
+                2 => {
+                    let m2: DenseMatrix<T, C> = DenseMatrix::from_rows(m.iter_mut());
+                    m = m2;
+                    ops.push("from_rows(matrix.iter_mut())".to_string());
+                    rep.cover("op.from_rows.matrix_iterator");
+                }
+                _ => {}
+            }
         }
     }
     if m.stride() != c {
@@ -694,10 +737,11 @@ pub fn one_case(case: u64, rng: &mut Rng, rep: &mut Report, n_ops: usize) {
             }
         };
     }
-    match case % 4 {
+    match case % 5 {
         0 => by_cols!(u8),
         1 => by_cols!(u32),
         2 => by_cols!(f32),
+        3 => by_cols!(Tagged),
         _ => by_cols!(i64),
     }
 }
